@@ -167,6 +167,11 @@ func c24Gen(rng *core.Rng, tier string) *harness.Plan {
 			seq++
 			p.Ops = append(p.Ops, harness.Op{At: int64((at + rng.Dur(0, 4*time.Second)) / time.Microsecond), Kind: "deposit", S: fmt.Sprint("b", seq), N: target, A: int64(rng.IntN(4)), B: int64(rng.IntN(2000)), C: int64(rng.IntN(4))})
 		}
+		if rng.Chance(0.6) {
+			// the proposer gets no steps for a while in the middle of the burst: it wakes up behind its peers
+			// with admitted transactions still to propose (its proposals are then deferred, not dropped)
+			p.Ops = append(p.Ops, harness.Op{At: int64((at + rng.Dur(500*time.Millisecond, 3*time.Second)) / time.Microsecond), Kind: "stall", N: target, A: int64(2000 + rng.IntN(7000))})
+		}
 	}
 	// deposits only: a transfer forwarded to a node that has not yet seen its
 	// input finalized is dropped by that node's queue worker by design (the
